@@ -1,4 +1,5 @@
 import Pure
+import Codec.Utf8All
 /-! # C15 — Hex is its byte string, whatever its representation
 
 `Hx.Hex` has the two public variants; `WF` = the inline array has 8 cells and the length does not exceed 8, the
@@ -62,5 +63,23 @@ theorem ofBits_toBits (bytes : List UInt8) (n : Nat) (h : HI.toBits bytes = some
 example : (Hex.inline [1, 2, 3, 0xAA, 0xBB, 0xCC, 0xDD, 0xEE] 3).WF ∧
     (Hex.inline [1, 2, 3, 0xAA, 0xBB, 0xCC, 0xDD, 0xEE] 3).toBytes = (Hex.vector [1, 2, 3]).toBytes := by
   simp [Hex.WF, Hex.toBytes]
+
+/-- the narrower `From` conversions (`i8`, `i16`, `i32`, `f32`): `w` big-endian bytes from which the pattern can be
+    read back; at eight bytes this is the conversion above -/
+theorem ofBitsW_length (w n : Nat) : (HI.ofBitsW w n).length = w := HI.ofBitsW_length w n
+theorem val_ofBitsW (w n : Nat) (h : n < 256 ^ w) : HI.valLE (HI.ofBitsW w n).reverse = n := HI.val_ofBitsW w n h
+theorem ofBitsW_eight (n : Nat) : HI.ofBitsW 8 n = HI.ofBits n := rfl
+
+/-- `From<bool>` / `to_bool`: inverse of each other; `to_bool` panics exactly on the empty byte string -/
+theorem toBool_ofBool (b : Bool) : HI.toBool (HI.ofBool b) = some b := HI.toBool_ofBool b
+theorem toBool_panics_iff (bytes : List UInt8) : HI.toBool bytes = none ↔ bytes = [] := HI.toBool_panics_iff bytes
+
+/-- `from_str_bytes` / `to_utf8`: the text comes back, and `to_utf8` succeeds exactly on the encodings of texts -/
+theorem utf8_text_roundtrip (cs : List Char) : U8.decAll (U8.encAll cs) = some cs := U8.decAll_encAll cs
+theorem utf8_exact (w : List UInt8) (cs : List Char) (h : U8.decAll w = some cs) : U8.encAll cs = w := U8.encAll_of_decAll w cs h
+
+example : U8.decAll [0xC0, 0x80] = none ∧ U8.decAll [0xED, 0xA0, 0x80] = none ∧ U8.decAll [0xCE, 0xB1] = some ['α'] := by
+  decide +kernel
+
 
 end Props.C15
